@@ -469,4 +469,302 @@ theorem rdKids_values : ∀ (es : List Item), SimpleValues es → ∀ (first : B
   | .rpc _ _ _ _ _ _ :: _, h, _, _, _, _ => by simp [SimpleValues] at h
   | .block _ _ _ _ _ _ _ :: _, h, _, _, _, _ => by simp [SimpleValues] at h
 
+theorem messageBody_close (F : Nat) (l : Nat) (more : List PTok) (os : List RawOpt) (ks : List Item) :
+    messageBody (F + 1) (T (.sym '}') l :: more) os ks = some (os, ks, l, more) := by
+  simp [messageBody, T]
+
+/-- a token a field can start with (and nothing else in a message body can) -/
+def FieldStart (t : Grammar.Tok) : Prop :=
+  (∃ c, t = .sym c ∧ c ≠ '}') ∨
+  (∃ s, t = .ident s ∧ s ≠ "option" ∧ s ≠ "message" ∧ s ≠ "enum" ∧ s ≠ "oneof")
+
+theorem messageBody_default (F : Nat) (t : Grammar.Tok) (l : Nat) (c : Cm) (tl : List PTok) (h : FieldStart t)
+    (os : List RawOpt) (ks : List Item) :
+    messageBody (F + 1) (⟨t, l, c⟩ :: tl) os ks =
+      match parseField (⟨t, l, c⟩ :: tl) with
+      | some (fd, r) => messageBody F r os (ks ++ [.field fd])
+      | none => none := by
+  rw [messageBody]
+  all_goals intros
+  all_goals first
+    | rfl
+    | (rename_i heq
+       simp only [List.cons.injEq, PTok.mk.injEq] at heq
+       rcases h with ⟨c', hc, hne⟩ | ⟨s, hs, h1, h2, h3, h4⟩
+       · subst hc
+         have := heq.1.1
+         first | (simp only [Grammar.Tok.sym.injEq] at this; exact hne this) | (simp at this)
+       · subst hs
+         have := heq.1.1
+         first
+           | (simp only [Grammar.Tok.ident.injEq] at this
+              first | exact h1 this | exact h2 this | exact h3 this | exact h4 this)
+           | (simp at this))
+
+
+theorem fieldLineToks_head (label : String) (hlab : label = "" ∨ label = "repeated " ∨ label = "optional ")
+    (abs : Bool) (first : String) (rest : List String) (name : String) (num : Int) (s : Nat)
+    (hkw : label = "" → abs = false → kwOk first) :
+    ∃ t tl, fieldLineToks label abs first rest name num s = ⟨t, s, Cm.none⟩ :: tl ∧ FieldStart t := by
+  unfold fieldLineToks
+  rcases hlab with h | h | h
+  · subst h
+    have e : labelToks "" s = [] := by simp [labelToks]
+    rw [e, List.nil_append]
+    cases abs with
+    | true =>
+      simp only [tyToks, if_true, List.cons_append, List.nil_append, T]
+      exact ⟨_, _, rfl, Or.inl ⟨'.', rfl, by decide⟩⟩
+    | false =>
+      obtain ⟨_, _, h3, h4, h5, h6⟩ := hkw rfl rfl
+      simp only [tyToks, Bool.false_eq_true, if_false, List.cons_append, List.nil_append, T]
+      exact ⟨_, _, rfl, Or.inr ⟨first, rfl, h3, h4, h5, h6⟩⟩
+  · subst h
+    have e : labelToks "repeated " s = [T (.ident "repeated") s] := by simp [labelToks]
+    rw [e]
+    simp only [List.cons_append, List.nil_append, T]
+    exact ⟨_, _, rfl, Or.inr ⟨"repeated", rfl, by decide, by decide, by decide, by decide⟩⟩
+  · subst h
+    have e : labelToks "optional " s = [T (.ident "optional") s] := by simp [labelToks]
+    rw [e]
+    simp only [List.cons_append, List.nil_append, T]
+    exact ⟨_, _, rfl, Or.inr ⟨"optional", rfl, by decide, by decide, by decide, by decide⟩⟩
+
+/-- a field in a message body -/
+theorem messageBody_field (F : Nat) (f : FieldD) (h : SimpleField f) (n s : Nat) (more : List PTok)
+    (hm : trailOf more = "") (os : List RawOpt) (ks : List Item) :
+    messageBody (F + 1) (lineToks (fieldLine n f) s ++ more) os ks =
+      messageBody F more os (ks ++ [.field { f with loc := lineLoc s s, index := 0 }]) := by
+  obtain ⟨hk, hl, ho, hlab, hn, hj, abs, first, rest, hf, hr, hty, hmap, hkw⟩ := h
+  unfold fieldLine
+  rw [hty, lineToks_field n f.label hlab abs first rest f.name f.number s hf hr hn]
+  obtain ⟨t, tl, hhead, hstart⟩ := fieldLineToks_head f.label hlab abs first rest f.name f.number s hkw
+  have hparse := parseField_toks f.label hlab abs first rest f.name f.number s more hf hmap
+    (fun h1 h2 => ⟨(hkw h1 h2).1, (hkw h1 h2).2.1⟩)
+  rw [hhead, List.cons_append] at hparse ⊢
+  rw [messageBody_default F t s Cm.none _ hstart, hparse]
+  simp only [hm]
+  congr 2
+  obtain ⟨k, lc, ix, lb, ty, nm, num, js, op⟩ := f
+  simp only at hk hty hj ho
+  subst hk hty hj ho
+  rfl
+
+theorem messageBody_msg_step (F : Nat) (name : String) (s : Nat) (r : List PTok) (os : List RawOpt) (ks : List Item) :
+    messageBody (F + 1) (T (.ident "message") s :: T (.ident name) s :: T (.sym '{') s :: r) os ks =
+      match messageBody F r [] [] with
+      | some (mos, mks, le, r') =>
+        messageBody F r' os (ks ++ [.block "message" 1 (mkLoc s le Cm.none (trailOf r)) 0 name (mkOpts s mos) mks])
+      | none => none := by
+  simp only [T]
+  rw [messageBody]
+  rfl
+
+theorem messageBody_enum_step (F : Nat) (name : String) (s : Nat) (r : List PTok) (os : List RawOpt) (ks : List Item) :
+    messageBody (F + 1) (T (.ident "enum") s :: T (.ident name) s :: T (.sym '{') s :: r) os ks =
+      match enumBody F r [] [] with
+      | some (eos, vs, le, r') =>
+        messageBody F r' os (ks ++ [.block "enum" 2 (mkLoc s le Cm.none (trailOf r)) 0 name (mkOpts s eos) (vs.map .field)])
+      | none => none := by
+  simp only [T]
+  rw [messageBody]
+  rfl
+
+theorem enumBody_close (F : Nat) (l : Nat) (more : List PTok) (os : List RawOpt) (vs : List FieldD) :
+    enumBody (F + 1) (T (.sym '}') l :: more) os vs = some (os, vs, l, more) := by
+  simp [enumBody, T]
+
+
+mutual
+/-- fuel the parser needs below an element -/
+def need1 : Item → Nat
+  | .block _ _ _ _ _ _ ks => ks.length + 1 + needAll ks
+  | _ => 0
+def needAll : List Item → Nat
+  | [] => 0
+  | e :: r => need1 e + needAll r
+end
+
+theorem mkLoc_plain (s e : Nat) : mkLoc s e Cm.none "" = lineLoc s e := rfl
+
+theorem lineToks_T_trail (s : String) (l : Nat) (more : List PTok) (hm : trailOf more = "") :
+    trailOf (lineToks s l ++ more) = "" := trailOf_append _ _ (lineToks_cm s l) hm
+
+mutual
+theorem mb_item : ∀ (e : Item), SimpleItem e → ∀ (n s G : Nat) (os : List RawOpt) (ks : List Item) (more : List PTok),
+    trailOf more = "" → need1 e ≤ G →
+    messageBody (G + 1) (itemToks n e s ++ more) os ks = messageBody G more os (ks ++ [(rdItem e s).1])
+  | .field f, h, n, s, G, os, ks, more, hm, _ => by
+    simp only [SimpleItem] at h
+    have hleaf : leafLine n f = fieldLine n f := by simp [leafLine, h.1]
+    simp only [itemToks, rdItem, hleaf]
+    exact messageBody_field G f h n s more hm os ks
+  | .rpc _ _ _ _ _ _, h, _, _, _, _, _, _, _, _ => h.elim
+  | .block kw t l i name opts kids, h, n, s, G, os, ks, more, hm, hG => by
+    simp only [SimpleItem] at h
+    obtain ⟨hl, ho, hname, hcase⟩ := h
+    subst ho
+    simp only [need1] at hG
+    rcases hcase with ⟨hkw, ht, hk⟩ | ⟨hkw, ht, hk⟩
+    · -- a nested message
+      subst hkw ht
+      by_cases hempty : kids.isEmpty = true
+      · have hnil : kids = [] := by simpa using hempty
+        subst hnil
+        simp only [itemToks, rdItem, List.isEmpty_nil, if_true]
+        rw [lineToks_empty n "message" name s isIdent_message hname]
+        simp only [List.cons_append, List.nil_append]
+        rw [messageBody_msg_step]
+        obtain ⟨G', rfl⟩ : ∃ G', G = G' + 1 := ⟨G - 1, by omega⟩
+        rw [messageBody_close]
+        simp only [mkOpts, groupOpts, unlocateShared, List.map_nil]
+        have : trailOf (T (.sym '}') s :: more) = "" := rfl
+        rw [this, mkLoc_plain]
+      · have hne : kids.isEmpty = false := by simpa using hempty
+        simp only [itemToks, rdItem, hne, Bool.false_eq_true, if_false]
+        rw [lineToks_open n "message" name s isIdent_message hname, lineToks_close]
+        simp only [List.cons_append, List.nil_append, List.append_assoc]
+        rw [messageBody_msg_step]
+        obtain ⟨F', hF'⟩ : ∃ F', G = F' + kids.length ∧ 1 ≤ F' ∧ needAll kids ≤ F' :=
+          ⟨G - kids.length, by omega, by omega, by omega⟩
+        obtain ⟨hGe, h1, h2⟩ := hF'
+        obtain ⟨F'', rfl⟩ : ∃ F'', F' = F'' + 1 := ⟨F' - 1, by omega⟩
+        have hkids := mb_kids kids hk (n + 1) true 0 (s + 1) false (F'' + 1) [] []
+          (T (.sym '}') (rdKids kids true 0 (s + 1) false).2 :: more) rfl h2
+        rw [hGe, hkids, messageBody_close]
+        simp only [List.nil_append, mkOpts, groupOpts, unlocateShared, List.map_nil]
+        have htr : trailOf (toksOf (elemsCmds (n + 1) kids true 0 0) false (s + 1) ++
+            T (.sym '}') (rdKids kids true 0 (s + 1) false).2 :: more) = "" := trailOf_toksOf _ _ _ _ rfl
+        rw [htr, mkLoc_plain]
+    · -- a nested enum
+      subst hkw ht
+      by_cases hempty : kids.isEmpty = true
+      · have hnil : kids = [] := by simpa using hempty
+        subst hnil
+        simp only [itemToks, rdItem, List.isEmpty_nil, if_true]
+        rw [lineToks_empty n "enum" name s isIdent_enum hname]
+        simp only [List.cons_append, List.nil_append]
+        rw [messageBody_enum_step]
+        obtain ⟨G', rfl⟩ : ∃ G', G = G' + 1 := ⟨G - 1, by omega⟩
+        rw [enumBody_close]
+        simp only [mkOpts, groupOpts, unlocateShared, List.map_nil]
+        have : trailOf (T (.sym '}') s :: more) = "" := rfl
+        rw [this, mkLoc_plain]
+      · have hne : kids.isEmpty = false := by simpa using hempty
+        simp only [itemToks, rdItem, hne, Bool.false_eq_true, if_false]
+        rw [lineToks_open n "enum" name s isIdent_enum hname, lineToks_close]
+        simp only [List.cons_append, List.nil_append, List.append_assoc]
+        rw [messageBody_enum_step]
+        obtain ⟨F', hGe, h1⟩ : ∃ F', G = F' + kids.length ∧ 1 ≤ F' := ⟨G - kids.length, by omega, by omega⟩
+        obtain ⟨F'', rfl⟩ : ∃ F'', F' = F'' + 1 := ⟨F' - 1, by omega⟩
+        have hvals := enumBody_values kids hk (n + 1) true 0 (s + 1) false (F'' + 1) [] []
+          (T (.sym '}') (rdKids kids true 0 (s + 1) false).2 :: more) rfl
+        rw [hGe, hvals, enumBody_close]
+        simp only [List.nil_append, mkOpts, groupOpts, unlocateShared, List.map_nil]
+        have htr : trailOf (toksOf (elemsCmds (n + 1) kids true 0 0) false (s + 1) ++
+            T (.sym '}') (rdKids kids true 0 (s + 1) false).2 :: more) = "" := trailOf_toksOf _ _ _ _ rfl
+        rw [htr, mkLoc_plain, ← rdKids_values kids hk]
+theorem mb_kids : ∀ (es : List Item), SimpleKids es → ∀ (n : Nat) (first : Bool) (lt L : Nat) (g : Bool) (F : Nat)
+    (os : List RawOpt) (ks : List Item) (rest : List PTok), trailOf rest = "" → needAll es ≤ F →
+    messageBody (F + es.length) (toksOf (elemsCmds n es first 0 lt) g L ++ rest) os ks =
+      messageBody F rest os (ks ++ (rdKids es first lt L g).1)
+  | [], _, n, first, lt, L, g, F, os, ks, rest, _, _ => by
+    simp [elemsCmds, toksOf_nil, rdKids]
+  | e :: r, h, n, first, lt, L, g, F, os, ks, rest, hr, hF => by
+    simp only [SimpleKids] at h
+    simp only [needAll] at hF
+    rw [toksOf_elems_cons n e r first lt g L (SimpleItem.plain e h.1)]
+    simp only [List.length_cons, List.append_assoc]
+    rw [← Nat.add_assoc, mb_item e h.1 n _ (F + r.length) os ks _ (trailOf_toksOf _ _ _ _ hr) (by omega)]
+    rw [mb_kids r h.2 n false _ _ _ F os _ rest hr (by omega)]
+    simp only [rdKids, List.append_assoc, List.cons_append, List.nil_append, startLine, gapBefore]
+    rfl
+end
+
+
+/-! ## the reading satisfies `relaid` -/
+
+theorem optsOk_nil : optsOk [] [] := ⟨rfl, by simp, by simp⟩
+
+theorem fieldOk_rd (f : FieldD) (h : SimpleField f ∨ SimpleValue f) (s : Nat) :
+    fieldOk f { f with loc := lineLoc s s, index := 0 } := by
+  have ho : f.opts = [] := by rcases h with h | h <;> exact h.2.2.1
+  refine ⟨rfl, rfl, rfl, rfl, rfl, rfl, ⟨rfl, rfl, rfl⟩, rfl, ?_, ?_⟩
+  · rw [ho]; simp
+  · intro p _ _ o' ho'
+    simp only [ho] at ho'
+    simp at ho'
+
+mutual
+theorem rdItem_mono : ∀ (e : Item) (s : Nat), Plain e → s < (rdItem e s).2 ∧
+    (rdItem e s).1.loc.startLine = s ∧ (rdItem e s).1.loc.endLine + 1 = (rdItem e s).2
+  | .field f, s, _ => by simp [rdItem, Item.loc, lineLoc]
+  | .rpc _ _ _ _ _ _, _, h => h.elim
+  | .block kw t l i name os kids, s, h => by
+    simp only [Plain] at h
+    simp only [rdItem]
+    split
+    · simp [Item.loc, lineLoc]
+    · have := rdKids_mono kids true 0 (s + 1) false h.2.2
+      exact ⟨by omega, rfl, rfl⟩
+theorem rdKids_mono : ∀ (es : List Item) (first : Bool) (lt L : Nat) (g : Bool), PlainList es →
+    L ≤ (rdKids es first lt L g).2
+  | [], _, _, _, _, _ => by simp [rdKids]
+  | e :: r, first, lt, L, g, h => by
+    simp only [PlainList] at h
+    simp only [rdKids]
+    have hst : L ≤ (if (g || (!first && e.typeOrder != lt)) = true then L + 1 else L) := by split <;> omega
+    generalize (if (g || (!first && e.typeOrder != lt)) = true then L + 1 else L) = st at hst ⊢
+    have h1 := (rdItem_mono e st h.1).1
+    have h2 := rdKids_mono r false e.typeOrder (rdItem e st).2 e.gapEnder h.2
+    omega
+end
+
+mutual
+theorem relaid_rdItem : ∀ (e : Item) (s : Nat), Plain e → relaid e (rdItem e s).1
+  | .field f, s, h => by
+    simp only [Plain] at h
+    simp only [rdItem, relaid]
+    exact fieldOk_rd f h s
+  | .rpc _ _ _ _ _ _, _, h => h.elim
+  | .block kw t l i name os kids, s, h => by
+    simp only [Plain] at h
+    obtain ⟨_, ho, hk⟩ := h
+    subst ho
+    simp only [rdItem]
+    split
+    · rename_i he
+      have : kids = [] := by simpa using he
+      subst this
+      simp only [relaid, relaidKids]
+      exact ⟨trivial, trivial, trivial, ⟨rfl, rfl, rfl⟩, optsOk_nil, trivial⟩
+    · simp only [relaid]
+      exact ⟨trivial, trivial, trivial, ⟨rfl, rfl, rfl⟩, optsOk_nil,
+        relaid_rdKids kids true 0 (s + 1) false 0 0 false hk (by omega) (by intro h; cases h)⟩
+theorem relaid_rdKids : ∀ (es : List Item) (first : Bool) (lt L : Nat) (g : Bool) (ps le : Nat) (pg : Bool),
+    PlainList es → ps < L → (first = false → L = le + 1 ∧ g = pg) →
+    relaidKids first pg ps le lt es (rdKids es first lt L g).1
+  | [], _, _, _, _, _, _, _, _, _, _ => by simp [rdKids, relaidKids]
+  | e :: r, first, lt, L, g, ps, le, pg, h, hps, hinv => by
+    simp only [PlainList] at h
+    simp only [rdKids, relaidKids]
+    obtain ⟨hm1, hm2, hm3⟩ := rdItem_mono e (if (g || (!first && e.typeOrder != lt)) = true then L + 1 else L) h.1
+    refine ⟨relaid_rdItem e _ h.1, ?_, ?_, ?_⟩
+    · rw [hm2]; split <;> omega
+    · intro hf hle hgap
+      obtain ⟨hL, hg⟩ := hinv hf
+      rw [hm2] at hgap
+      subst hf
+      by_cases hc : (g || (!false && e.typeOrder != lt)) = true
+      · simp only [Bool.not_false, Bool.true_and, Bool.or_eq_true, bne_iff_ne, ne_eq] at hc
+        rcases hc with hc | hc
+        · exact Or.inl (hg ▸ hc)
+        · exact Or.inr hc
+      · simp only [hc, Bool.false_eq_true, if_false] at hgap
+        omega
+    · apply relaid_rdKids r false e.typeOrder _ e.gapEnder _ _ e.gapEnder h.2
+      · rw [hm2]; exact hm1
+      · intro _; exact ⟨by omega, rfl⟩
+end
+
 end J5V.Print.Reparse
